@@ -97,7 +97,7 @@ def _flagstr(raw):
 
 
 def judge_and_classify(recs, wd, out, flags):
-    shards = kit.write_shards(recs, wd / "itrace", "c09inst", 3000)
+    shards = kit.write_shards(recs, wd / "itrace", "c09inst", max(500, min(4000, len(recs) // 2 + 1)))
     verdicts, st, tr = kit.judge_shards("C09_InstJudge", "C09_InstJudge", shards)
     out.states += st
     out.transitions += tr
@@ -139,7 +139,7 @@ def negative_controls(out):
                 bad.append(bug)
     if bad:
         raise kit.MachineryError(f"C09 instance-model negative controls not refuted: {bad}")
-    out.extra["instance_negative_controls_refuted"] = len(INST_NEG)
+    out.extra["instance_negative_control_runs_refuted"] = len(INST_NEG)
 
 
 def run_instances(tier, seed, out, wd, flags):
@@ -151,7 +151,12 @@ def run_instances(tier, seed, out, wd, flags):
         raise kit.MachineryError("C09_Inst printed no histories")
     for i, c in enumerate(cases):
         c["id"] = i
-    negative_controls(out)
+    neg = [p["instnegcontrols"] for p in gen.printed() if "instnegcontrols" in p]
+    if neg != [len(INST_NEG)]:
+        raise kit.MachineryError("C09_Inst did not evaluate its negative controls")
+    out.extra["instance_negative_controls_refuted"] = neg[0]
+    if tier == "thorough":
+        negative_controls(out)
     kit.log(f"C09: instance model: {gen.distinct} states, invariants hold; {len(cases)} maximal "
             f"histories emitted ({gen.wall:.1f}s); {len(INST_NEG)} seeded defects refuted")
     recs = kit.drive("harness.c09inst", "drive_hist", cases, {"flags": flags}, chunk=100)
